@@ -2317,7 +2317,7 @@ type threadSpec struct {
 func (n *normalizer) bodyText(fd *ast.FuncDecl, mode string, temps []string, resNames []string, label string, rename map[types.Object]string, th *threadSpec) (string, bool, error) {
 	m := map[ast.Node]ast.Node{}
 	body := cloneAST(fd.Body, m).(*ast.BlockStmt)
-	nilRet := map[*ast.ReturnStmt]bool{} // clone returns whose tested result is the literal nil
+	nilRet := map[*ast.ReturnStmt]bool{}    // clone returns whose tested result is the literal nil
 	nonNilRet := map[*ast.ReturnStmt]bool{} // … whose tested result is a once-defined name, returned under `if name != nil`
 	var knownNonNil func(ret *ast.ReturnStmt, e ast.Expr) bool
 	{
